@@ -1,7 +1,7 @@
 """C17 Hosts are tried in query-plan order and exhaustion is reported (W-FULL)."""
 from dsim import seams
 from props.common import gen_strategy, quiet_logging, Violations
-from worlds.reqpath import ReqPathRun, base_plan, RETRY, RETHROW, IGNORE, RETRY_NEXT_HOST
+from worlds.reqpath import ReqPathRun, base_plan, RETRY, RETHROW, IGNORE, RETRY_NEXT_HOST, DECISION_NAMES
 
 ID = 'C17'
 TIERS = {'quick': {'runs': 4000, 'budget_s': 55, 'wall_cap': 120, 'block': 60},
@@ -16,6 +16,8 @@ RULES = {
     'C17/order': 'the nodes that receive a statement form a subsequence of its plan, in plan order',
     'C17/no-repeat': 'a host receives the statement again only directly after a RETRY decision on that host',
     'C17/exhaustion': 'NoHostAvailable is delivered only after the plan iterator is exhausted (every plan host was tried or skipped), and its errors map has an entry for every host of the plan',
+    'C17/moves-on': 'after a RETRY / RETRY_NEXT_HOST decision whose host became unusable the statement goes on to the next plan host or reports '
+                    'a failure; it is never left without any attempt in flight until the client timeout',
     'C17/target': 'with host= only the targeted node ever receives the statement',
     'C17/first-host': 'the first host of the plan that has a usable pool is tried first (also for every later page)',
 }
@@ -23,7 +25,7 @@ WORLD_INFO = {'real': ['ResponseFuture (_make_query_plan, send_request, _query, 
                        'Session.execute_async host targeting', 'Cluster host up/down handling that creates and removes pools'],
               'stub': ['libev C binding', 'sockets/TCP', 'ThreadPoolExecutor', 'fake nodes', 'scripted LBP/retry policy']}
 ASSUMPTIONS = ['hosts whose node was crashed before the statements start count as legitimately skipped']
-REQUIRED_PROBES = ['moved_to_next_host', 'no_host_available', 'host_without_pool_skipped', 'explicit_target', 'later_page_replanned']
+REQUIRED_PROBES = ['coordinator_died_after_retry_decision', 'moved_to_next_host', 'no_host_available', 'host_without_pool_skipped', 'explicit_target', 'later_page_replanned']
 
 RETRIABLE = ['read_timeout', 'write_timeout', 'unavailable', 'overloaded', 'server_error']
 
@@ -77,6 +79,19 @@ def gen_plan(rng, tier):
             r['decisions'] = [[rng.choice([RETRY_NEXT_HOST, RETRY_NEXT_HOST, RETRY_NEXT_HOST, RETRY, RETHROW]), None]
                               for _ in range(nerr + 1)]
         p['requests'].append(r)
+    if rng.random() < 0.4 and not any(r.get('paged') for r in p['requests']):
+        # (later pages of paged statements are fetched at the end of the run and would meet the dead coordinator)
+        # last statement: the coordinator answers with an error, the policy says RETRY (same host), and the coordinator dies right
+        # after answering - by the time the retry runs its pool may be gone, shut down or its connection dead
+        order = list(range(n))
+        rng.shuffle(order)
+        then = {'kind': rng.choice(['crash', 'crash', 'rst_pool']), 'after': rng.choice([0.0002, 0.001, 0.003, 0.01]),
+                'announce': rng.choice([None, 0.0, 0.002])}
+        p['requests'].append({'thread': 0, 'plan': order, 'idempotent': True, 'start_at': 1.5, 'sync': True, 'think': 0.001,
+                              'scripts': [{'kind': 'error', 'error': rng.choice(RETRIABLE), 'delay': 0.003, 'then': then},
+                                          {'kind': 'ok', 'delay': 0.003}, {'kind': 'ok', 'delay': 0.003}],
+                              'decisions': [[RETRY, None], [RETRY_NEXT_HOST, None], [RETRY_NEXT_HOST, None], [RETRY_NEXT_HOST, None]],
+                              'then_fault': True})
     if any(r.get('paged') for r in p['requests']):
         # page epochs are told apart by time; speculative attempts of one page overlapping the next page's
         # requests would blur them (that interaction is examined in C18), so paged runs have no speculation
@@ -178,6 +193,21 @@ def run_plan(plan, seed, choices=None):
                 nontrivial = True
             if any(x in crashed for x in plan_nodes):
                 sim.probe('host_without_pool_skipped')
+        # a retry decision must lead somewhere: another attempt, or a reported failure - never an abandoned plan
+        if r.get('then_fault') and calls:
+            V.check('C17/moves-on')
+            sim.probe('coordinator_died_after_retry_decision')
+            last = calls[-1]
+            later = [e for e in entries if e['seq'] > last['seq']]
+            c0 = o.calls[0] if o.calls else None
+            timed_out = c0 is None or (c0[2] == 'eb' and c0[3][0] == 'OperationTimedOut')
+            if last['decision'][0] in (RETRY, RETRY_NEXT_HOST) and not later and timed_out:
+                tried = set(e['node'] for e in entries)
+                left = [x for x in r['plan'] if x not in tried and x not in crashed]
+                V.add('C17/moves-on', 'plan-abandoned-after-retry-decision',
+                      'request %d: the policy decided %s after node %d answered, that node then failed, and nothing further was sent although '
+                      'plan hosts %r were never tried; the request ended with %s' % (i, DECISION_NAMES[last['decision'][0]], entries[-1]['node'] if entries else -1,
+                                                                                   left, 'no outcome' if c0 is None else 'OperationTimedOut'))
         # exhaustion
         outcomes = [(o.calls[0] if o.calls else None, o.excs[0] if o.excs else None)]
         c0, exc = outcomes[0]
@@ -191,9 +221,10 @@ def run_plan(plan, seed, choices=None):
                 ep_ = getattr(k_, 'endpoint', None)
                 keys.add(str(ep_.address) if ep_ is not None else str(k_).split(':')[0])
             # a (speculative) attempt that is still in flight when exhaustion is reported has no error yet
-            replies = dict(((x['node'], x['attempt']), x['seq']) for nn in w.fc.nodes for x in nn.replies if x['rid'] == i)
+            # (its reply may have left the node already: it is in flight until the client has had time to read it)
+            replies = dict(((x['node'], x['attempt']), x['t']) for nn in w.fc.nodes for x in nn.replies if x['rid'] == i)
             inflight = set(e['node'] for e in entries if
-                           (replies.get((e['node'], e['attempt'])) is None or replies[(e['node'], e['attempt'])] > c0[0]))
+                           (replies.get((e['node'], e['attempt'])) is None or replies[(e['node'], e['attempt'])] + 0.05 > c0[1]))
             missing = [x for x in r['plan'] if w.fc.nodes[x].addr not in keys and x not in inflight]
             if missing:
                 V.add('C17/exhaustion', 'errors-map-incomplete', 'request %d: NoHostAvailable.errors lacks plan host(s) %r (has %r)'
